@@ -12,9 +12,6 @@ NA_REASON = {
            "covered by C07/C08/C09.",
     "C10": "needs the strict RFC 1035 oracle applied to write_dns()/dns_encode_*() output: the writer->wire path gave no verdict "
            "within memory (same obstacle as the full C09); only forward_query's relayed datagram is parsed by the oracle (under C20)",
-    "C16": "two-step re-delivery lemma (MODE 5 of the step harness) not built in the time available: one ping/data step already "
-           "costs 2-10 GB per cell; the single-step parts (cache/qmem answer paths are executed in the C14/C05 ping/data cells) do "
-           "not establish the property, so it is not claimed",
     "C02": "liveness/recovery over two timer-driven select() loops under fairness: not expressible as a bounded "
            "safety assertion over single steps, and a from-any-state bounded-recovery search needs >=15 real steps per side "
            "with 64 KiB states (each step 10-40 s of solver time) - outside the reach of bounded symbolic execution here",
